@@ -51,6 +51,9 @@ def takeSortedByRows {β} (nums : List Nat) (vals : List β) : List β := (sortP
 def scatterTrue (n : Nat) (nums : List Nat) : List Bool :=
   nums.foldl (fun acc r => acc.set r true) (List.replicate n false)
 
+/-- `np.bincount(x, minlength=n)` for values below `n` -/
+def bincount (xs : List Nat) (n : Nat) : List Nat := (List.range n).map (fun r => xs.count r)
+
 /-- the distinct values of a column, in order of first appearance -/
 def distinct : List Nat → List Nat
   | [] => []
